@@ -14,22 +14,24 @@ TOL = 1e-9
 REL = Fraction(1, 10 ** 9)
 
 # every storage a matrix signal can arrive in: dense ndarray and every scipy.sparse format (matrix and array flavour)
-STORES = {'dense': lambda A: A, 'csc': sps.csc_matrix, 'csr': sps.csr_matrix, 'coo': sps.coo_matrix, 'lil': sps.lil_matrix,
+STORES = {'dense': lambda A: A, 'dense_F': np.asfortranarray, 'csc': sps.csc_matrix, 'csr': sps.csr_matrix, 'coo': sps.coo_matrix, 'lil': sps.lil_matrix,
           'dok': sps.dok_matrix, 'bsr': sps.bsr_matrix, 'dia': sps.dia_matrix, 'csc_array': sps.csc_array,
           'csr_array': sps.csr_array, 'coo_array': sps.coo_array, 'lil_array': sps.lil_array, 'dok_array': sps.dok_array,
           'bsr_array': sps.bsr_array, 'dia_array': sps.dia_array}
 CORE = ('dense', 'csc', 'csr')
+DENSE = ('dense', 'dense_F')
 # formats every module answers for on the pinned tree (the others raise a loud format error in scipy / the module):
 # a format listed here must be answered; a format not listed must be answered CORRECTLY or refused with an exception
 ACCEPTED = {
     'LinSolve': set(STORES) - {'dok', 'dok_array'},
-    'SystemOfEquations': {'dense', 'csc', 'csr', 'lil', 'csc_array', 'csr_array', 'coo_array', 'lil_array'},
-    'StaticCondensation': {'dense', 'csc', 'csr', 'lil', 'dok', 'csc_array', 'csr_array', 'coo_array', 'lil_array', 'dok_array'},
-    'Inverse': {'dense'},
+    'SystemOfEquations': {'dense', 'dense_F', 'csc', 'csr', 'lil', 'csc_array', 'csr_array', 'coo_array', 'lil_array'},
+    'StaticCondensation': {'dense', 'dense_F', 'csc', 'csr', 'lil', 'dok', 'csc_array', 'csr_array', 'coo_array', 'lil_array', 'dok_array'},
+    'Inverse': {'dense', 'dense_F'},
 }
 NPDT = {'bool': np.bool_, 'int': np.int64, 'real': np.float64, 'complex': np.complex128}
-KNOWN_INT = ('LDAWrapper._do_solve_1rhs', 'work arrays hold the solution without loss (dtype at least float)',
-             'integer matrix with integer or bool right-hand side')
+# pending finding (reported, demo findings/NEW_C07_dense_lu_integer_fortran_order.py): scipy.linalg.lu mis-factorises integer-typed
+# Fortran-ordered input; SolverDenseLU.update hands the matrix (or the block sliced by SystemOfEquations / StaticCondensation) straight in
+KNOWN_LU = ('SolverDenseLU.update', 'P L U = A for the matrix handed to scipy.linalg.lu', 'integer-typed dense matrix in Fortran memory order')
 
 
 def nl(idx):
@@ -147,8 +149,11 @@ def run(ctx):
         labels.append(label)
         ctx.case(tuple(str(v) for v in label[:-1]), nontrivial, sample=dict(case=str(label[:-1]), coq=chk[:300]))
 
-    def impl_fail(call_site, pred, cls, case, expected=None, got=None):
+    def impl_fail(call_site, pred, cls, case, expected=None, got=None, A=None, stor=None):
         reported.add(len(checks) - 1)
+        if A is not None and dkind(A) == 'int' and stor in DENSE and 'result type' not in pred:
+            ctx.violation('impl-violates', *KNOWN_LU, dict(case, observed_at=call_site, predicate=pred))
+            return
         ctx.violation('impl-violates', call_site, pred, cls, case, expected=expected, got=got)
 
     def cast(v, kind):
@@ -226,7 +231,6 @@ def run(ctx):
         """one LinSolve module on (Astored, b); second = (A2, A2stored, b2, description) for a second response"""
         n = A.shape[0]
         adt, bdt = dkind(A), dkind(b)
-        int_int = adt == 'int' and bdt in ('int', 'bool')
         sA, sb = pym.Signal('A', Astored), pym.Signal('b', b.copy())
         replay = dict(module='LinSolve', override=ol, storage=stor, cls=cls, A=A.tolist().__repr__(), b=b.tolist().__repr__(),
                       dtypes=dict(A=str(A.dtype), b=str(b.dtype)))
@@ -242,14 +246,7 @@ def run(ctx):
             ctx.evaluations += 1
             if stor not in ACCEPTED['LinSolve']:
                 return refused('LinSolve', stor, e)
-            if int_int:
-                ctx.violation('impl-violates', *KNOWN_INT, dict(replay, error=repr(e)))
-                return
             ctx.violation('impl-violates', 'LinSolve._response', 'response raises for a non-singular matrix', f'{cls} matrix {stor}', dict(replay, error=repr(e)))
-            return
-        if int_int and dcode(np.asarray(x).dtype) != 2:
-            ctx.evaluations += 1
-            ctx.violation('impl-violates', *KNOWN_INT, dict(replay, got_dtype=str(np.asarray(x).dtype)))
             return
         A_exact = cq_matrix(A)
         B = cq_matrix(b)
@@ -265,7 +262,7 @@ def run(ctx):
         ctx.search_evaluations += 1
         Af = A.astype(np.result_type(A.dtype, float))
         if not (shape_ok and close(Af @ as_col(x), as_col(b)) if ol != 'CG' else shape_ok):
-            impl_fail('LinSolve._response', 'A x = b', f'{cls} matrix {stor}', replay, got=np.asarray(x).tolist().__repr__()[:1500])
+            impl_fail('LinSolve._response', 'A x = b', f'{cls} matrix {stor}', replay, got=np.asarray(x).tolist().__repr__()[:1500], A=A, stor=stor)
         elif xd != np.result_type(A.dtype, b.dtype, float):
             impl_fail('LinSolve._response', 'x has the result type of matrix, right-hand side and float', f'{adt} matrix {stor}, {bdt} rhs', replay,
                       expected=str(np.result_type(A.dtype, b.dtype, float)), got=str(xd))
@@ -294,7 +291,7 @@ def run(ctx):
             (coq_check_solve(A2e, 'N', X2, B2, x2) if ok2 else 'false') + f' && check_linsolve_dtype {dcode(A2.dtype)} {dcode(b2.dtype)} {dcode(x2d)}', n >= 2)
         ctx.search_evaluations += 1
         if not (ok2 and close(A2 @ as_col(x2), as_col(b2))):
-            impl_fail('LinSolve._response', 'A x = b (second response)', f'{cls} matrix {stor}', replay2)
+            impl_fail('LinSolve._response', 'A x = b (second response)', f'{cls} matrix {stor}', replay2, A=A, stor=stor)
         elif x2d != np.result_type(A2.dtype, b2.dtype, float):
             impl_fail('LinSolve._response', 'x has the result type of matrix, right-hand side and float (second response)',
                       f'{adt} matrix {stor}, {dkind(b2)} rhs after {bdt} rhs', replay2, expected=str(np.result_type(A2.dtype, b2.dtype, float)), got=str(x2d))
@@ -310,7 +307,7 @@ def run(ctx):
     def linsolve_cases(cls, A, name, Astored, stor):
         n = A.shape[0]
         cplx = np.iscomplexobj(A)
-        sparse = stor != 'dense'
+        sparse = stor not in DENSE
         overrides = [('auto', lambda: {})]
         if sparse:
             overrides += [('SolverSparseLU', lambda: dict(solver=S.SolverSparseLU())),
@@ -405,12 +402,11 @@ def run(ctx):
             kw.pop('prescribed')
         elif style == 'prescribed-only':
             kw.pop('free')
-        real_dense_cplx = (not np.iscomplexobj(A)) and cplx and stor == 'dense'
+        real_dense_cplx = (not np.iscomplexobj(A)) and cplx and stor in DENSE
         icls = 'real dense A with complex bf or xp' if real_dense_cplx else f'{cls} matrix {stor}'
-        all_int = adt == 'int' and dts == ('int', 'int')
         replay = dict(module='SystemOfEquations', cls=cls, storage=stor, A=A.tolist().__repr__(), free=list(map(int, f)), prescribed=list(map(int, p)),
                       style=style, bf=bf.tolist().__repr__(), xp=xp.tolist().__repr__(), dtypes=dict(A=str(A.dtype), bf=str(bf.dtype), xp=str(xp.dtype)))
-        if stor != 'dense' and adt != 'complex' and cplx:
+        if stor not in DENSE and adt != 'complex' and cplx:
             # documented limitation of the inner LinSolve (real sparse matrix, complex right-hand side): TypeError
             if stor in ACCEPTED['SystemOfEquations']:
                 def go():
@@ -432,9 +428,6 @@ def run(ctx):
             ctx.evaluations += 1
             if stor not in ACCEPTED['SystemOfEquations']:
                 return refused('SystemOfEquations', stor, e)
-            if all_int:
-                ctx.violation('impl-violates', *KNOWN_INT, dict(replay, error=repr(e)))
-                return
             ctx.violation('impl-violates', 'SystemOfEquations._response', 'response raises for a non-singular free block', icls, dict(replay, error=repr(e)))
             return
         # exact model output
@@ -467,7 +460,8 @@ def run(ctx):
         want = np.result_type(A.dtype, bf.dtype, xp.dtype, float)
         if not good:
             impl_fail('SystemOfEquations._response', 'x[p] = xp, b[f] = bf, A x = b', icls, replay,
-                      got=dict(x=np.asarray(x).tolist().__repr__()[:800], b=np.asarray(b).tolist().__repr__()[:800], x_dtype=str(xdt), b_dtype=str(bdt)))
+                      got=dict(x=np.asarray(x).tolist().__repr__()[:800], b=np.asarray(b).tolist().__repr__()[:800], x_dtype=str(xdt), b_dtype=str(bdt)),
+                      A=A, stor=stor)
         elif xdt != want or bdt != want:
             impl_fail('SystemOfEquations._response', 'x and b have the result type of matrix, loads, prescribed values and float',
                       f'{adt} matrix {stor}, {dts[0]} bf, {dts[1]} xp', replay, expected=str(want), got=dict(x=str(xdt), b=str(bdt)))
@@ -567,7 +561,7 @@ def run(ctx):
             full = np.linalg.solve(Asub, np.concatenate([bm, np.zeros(len(f))]))
             good = close(Ar @ full[:len(m_)], bm.astype(Ar.dtype))
         if not good:
-            impl_fail('StaticCondensation._response', 'condensed system reproduces the main-dof response', f'{cls} matrix {stor}', replay)
+            impl_fail('StaticCondensation._response', 'condensed system reproduces the main-dof response', f'{cls} matrix {stor}', replay, A=A, stor=stor)
         elif Ar.dtype != np.result_type(A.dtype, float):
             impl_fail('StaticCondensation._response', 'the condensed matrix has the result type of the matrix and float', f'{dkind(A)} matrix {stor}',
                       replay, expected=str(np.result_type(A.dtype, float)), got=str(Ar.dtype))
@@ -612,6 +606,17 @@ def run(ctx):
         sc_case(cls, A, name, [n - 1], list(range(1, n - 1)), 'csc')
 
     # ------------------------------------------------------------------ dtype / storage-format stress (deterministic, every seed)
+    # corpus witnesses of fix ab6153f (F28): integer-typed matrix with integer / bool data
+    for (cls, A, name, corp) in mats:
+        if corp and 'int_rhs' in corp:
+            Ai = A.astype(np.int64)
+            for stor in ('dense', 'csc'):
+                for b in (np.array(corp['int_rhs'], dtype=np.int64), np.array(corp['int_rhs']) % 2 == 1):
+                    ls_run(cls, Ai, name, store(Ai, stor), stor, 'auto', lambda: {}, b, 'vec')
+        if corp and 'int_soe' in corp:
+            Ai = A.astype(np.int64)
+            for stor in ('dense', 'csc'):
+                soe_case(cls, Ai, name, corp['int_soe']['free'], corp['int_soe']['prescribed'], stor, 'vec', ('int', 'int'), 'both')
     # the 5 fixed matrices of corpus/C07/dtype_stress.json in every dtype they can be held in
     variants = []
     for (cls, A, name) in stress:
@@ -623,13 +628,13 @@ def run(ctx):
             # complex128 storage of real values: Hermitian iff symmetric
             variants.append(({'spd': 'hpd'}.get(cls, cls), A.astype(complex), name + ':complex128'))
     others = [s for s in STORES if s not in CORE]
-    f_st, p_st = [0, 2], [1, 3]
+    f_st, p_st = [1, 2], [3, 0]
     flip = 0
     for (cls, A, name) in variants:
         n = A.shape[0]
         for stor in STORES:
             core = stor in CORE
-            sparse = stor != 'dense'
+            sparse = stor not in DENSE
             if not core and ctx.quick() and name.endswith(':complex128'):
                 continue
             Ast = None
@@ -689,6 +694,10 @@ def run(ctx):
         if idx in reported:
             continue
         lab = labels[idx]
+        rp = lab[-1]
+        if rp.get('storage') in DENSE and str(rp.get('dtype') or rp.get('dtypes', {}).get('A')).startswith('int'):
+            ctx.violation('impl-violates', *KNOWN_LU, dict(rp, observed_at=f'{lab[0]} correspondence'))
+            continue
         ctx.violation('correspondence', f'{lab[0]}._response', 'outputs equal the exact model outputs (1e-9), satisfy the block equations and have the model dtype',
                       f'{lab[1]}', dict(label=[str(v) for v in lab[:-1]], replay=lab[-1]),
                       note='exact rational model output / model dtype (checked inside Coq) and implementation differ')
